@@ -317,6 +317,13 @@ def r18c(ctx):
         ctx.instance("R18c", f"{cm.relpath}:CSS3_COLORMAP", f"{name} -> {rgb}", ok=ok, nontrivial=name in BASIC_COLORS)
         if not ok:
             ctx.report("R18c", cm, node, f"{name!r}: {rgb!r}", f"colour entry {name!r}: {rgb!r} is not a valid/consistent CSS colour definition")
+    # the CSS3 / SVG list has 147 names: both spellings of the seven greys belong to it (rgb2hex looks names up directly; a name that is dropped raises KeyError)
+    untwinned = sorted(n_ for n_ in table if "gray" in n_ and n_.replace("gray", "grey") not in table)
+    ctx.instance("R18c", f"{cm.relpath}:CSS3_COLORMAP", f"{len(table)} names (CSS3 defines 147); every gray has its grey", ok=len(table) >= 147 and not untwinned, nontrivial=True)
+    if len(table) < 147 or untwinned:
+        ctx.report("R18c", cm, node, f"{len(table)} colour names" + (f", no 'grey' spelling for {untwinned}" if untwinned else ""),
+                   f"the colour table holds {len(table)} of the 147 CSS3 names" + (f" and lacks the British spelling of {untwinned}" if untwinned else "") +
+                   ": rgb2hex() raises KeyError for a name the property counts among 'all CSS colour names'")
     missing = [k for k in BASIC_COLORS if k not in table]
     ctx.instance("R18c", f"{cm.relpath}:CSS3_COLORMAP", "contains the 17 basic colours", ok=not missing, nontrivial=True)
     if missing:
@@ -571,6 +578,7 @@ from ..selftest import Seed, unparse_seed  # noqa: E402
 _DT = "src/odfdo/datatype.py"
 _CO = "src/odfdo/utils/color.py"
 SEEDS = [
+    Seed("the grey spellings are dropped from the colour table", "fault", "src/odfdo/const.py", '    "grey": (128, 128, 128),\n', '', "R18c"),
     Seed("DateTime.decode cleans the text up before parsing it", "fault", _DT,
          "        try:\n            return datetime.fromisoformat(data)\n        except ValueError:\n            # maybe python 3.9",
          "        if data.endswith(\"Z\"):\n            data = data[:-1] + \"+00:00\"\n        head, dot, fraction = data.partition(\".\")\n        if dot:\n            digits, plus, zone = fraction.partition(\"+\")\n            data = head + dot + digits[:6] + plus + zone\n        try:\n            return datetime.fromisoformat(data)\n        except ValueError:\n            # maybe python 3.9", "R18b"),
